@@ -227,6 +227,14 @@ c16!(c16_anm_header_old_no_panic, 8, {
     core::mem::forget(r); core::mem::forget(format); core::mem::forget(root);
 });
 
+//@ C16 c16_anm07_read_size65535 quick default ANM v2+: read_instr on arbitrary header bytes whose size field is 65535 (the largest 16-bit value) returns Ok or Err and never panics (no sign extension into an absurd allocation; the short buffer ends in an end-of-file error)
+c16!(c16_anm07_read_size65535, 12, read_instr_never_panics::<8>(&InstrFormat07, 2, 2, 65535));
+
+//@ C16 c16_anm07_read_any12 quick default ANM v2+: read_instr on 12 ARBITRARY bytes (size field symbolic too: every value, including sizes beyond the buffer, which end in an end-of-file error) returns Ok or Err and never panics
+c16!(c16_anm07_read_any12, 16, read_instr_never_panics::<12>(&InstrFormat07, 0, 0, 0));
+//@ C16 c16_anm06_read_any8 quick default ANM v0: read_instr on 8 ARBITRARY bytes (size field symbolic too: every value, including sizes beyond the buffer, which end in an end-of-file error) returns Ok or Err and never panics
+c16!(c16_anm06_read_any8, 12, read_instr_never_panics::<8>(&InstrFormat06, 0, 0, 0));
+
 #[cfg(kani)]
 #[path = "/verif/.cache/playback/anm_read_write.rs"]
 mod playback;
